@@ -69,7 +69,7 @@ def check(case):
     x = np.asarray(x)
     if x.shape != (n,):
         raise Violation("bad_shape", "returned shape %r, expected (%d,); %s" % (x.shape, n, ctx))
-    if n and not np.issubdtype(x.dtype, np.floating):
+    if n and k != "zero" and not np.issubdtype(x.dtype, np.floating):
         raise Violation("bad_dtype", "returned dtype %s; %s" % (x.dtype, ctx))
     lab = ["fac_" + k, "n_%d" % n]
     # reproducibility through numpy's global generator, same callable object
